@@ -26,6 +26,10 @@ func draw(t *rapid.T) *pbt.Case {
 	}
 	c := &pbt.Case{}
 	c.Spec = gen.Draw(t, gen.Regular(), rapid.IntRange(1, maxB).Draw(t, "budget"))
+	if rapid.IntRange(0, 7).Draw(t, "twin") == 0 {
+		// a secondary error that is a separately created, equal twin of the main error
+		c.Spec = &gen.Spec{K: rapid.SampledFrom([]string{"combine", "secondary"}).Draw(t, "sec"), C: c.Spec, X: []*gen.Spec{c.Spec.Clone()}}
+	}
 	return c
 }
 
